@@ -118,6 +118,10 @@ LEAVES = ["0", "-0", "7", "-9223372036854775808", "9223372036854775807", "922337
           "a:+1", "&rest", "%1", "true", "false", "'a", "''a", "'(1 'b)", "'()", "()", "[1 2]", "(a (b (c)))", "'('(1))", "\"\"\"raw \" x\"\"\"", "#^(+ % 1)", "#'car"]
 
 
+# the only leaf above that no reader may accept: one past the largest int
+LEAF_REJECT = {"9223372036854775808"}
+
+
 def run(tier):
     V = Verdict("C12", tier)
     work = Work("C12")
@@ -206,6 +210,9 @@ def _run(V, work, tier):
         r = lv[i]
         if not (r["strict"]["ok"] == r["ft"]["ok"] == r["fmt"]["ok"]):
             V.add(None, "the readers disagree on acceptance of leaf %s" % t, {"text": t})
+            continue
+        if r["strict"]["ok"] != (t not in LEAF_REJECT):
+            V.add(None, "leaf law: %s is %s by the readers (%s)" % (t, "rejected" if t not in LEAF_REJECT else "accepted", r["strict"].get("msg", "")[:100]), {"text": t})
             continue
         if not r["strict"]["ok"]:
             continue
